@@ -590,3 +590,64 @@ Theorem C15_tr_not_from_command_name : forall call f (m : mem) bcmd cmd v0 v2 v3
 Proof. exact glob_not_ok. Qed.
 Print Assumptions C15_tr_not_from_command_name.
 End C15_translated_ec_glob.
+
+(* ------------------------------------------------------------------------------------------ *)
+(* THE MODEL IS THE C TEXT (coq/TrSplice*.v): ln_glob under lbuf_replace of /repo/lbuf.c, on the translated C text
+   (tools/c2clite.d/55_splice.list).  C15_tr_lbuf_replace: from any memory holding a line buffer (TrSpliceAll.lbuf_at: the
+   struct, the pointer array ln[], the char array ln_glob[] whose first |lines| cells hold `globs`, one live block per line)
+   the translated lbuf_replace returns Ok and the new memory holds, next to the spliced lines, the ln_glob values
+   splice_globs globs pos n_del n_ins -- when the arrays grow the values are COPIED into the new array, the tails move with
+   their lines, and C15_tr_splice_is_ex: these are the values of ExDefs.lbuf_replace (ExDefs.mknew): the first min(n_del, n_ins)
+   rows inherit ln_glob, the added rows are cleared, the rows outside the range keep theirs. *)
+From NV Require CLite CLiteProps GenCFuncs TrSpliceMarks TrSpliceAll TrSpliceModels.
+Section C15_translated_splice.
+Local Open Scope Z_scope.
+
+Theorem C15_tr_lbuf_replace : forall (m : CLite.mem) lb blk bln bgl lbs lines globs mk cap sv t nul pos nd cap' d fuel,
+  let n := length lines in let ni := IoDefs.linecount t in
+  let need := Z.of_nat n + Z.of_nat ni - Z.of_nat nd in
+  TrSpliceAll.lbuf_at m lb blk bln bgl lbs lines globs mk cap ->
+  TrSpliceAll.s_text m (lb :: bln :: bgl :: lbs) sv t nul ->
+  (pos + nd <= n)%nat ->
+  Z.of_nat n + Z.of_nat ni <= 2147483647 ->
+  IoDefs.grow (IoDefs.grow_fuel need) need (Z.of_nat cap) = Some cap' -> cap' <= 2147483647 ->
+  Forall (TrSpliceMarks.row_fits (Z.of_nat pos) (Z.of_nat nd) (Z.of_nat ni)) mk ->
+  (TrSpliceAll.splice_fuel n ni nd <= fuel)%nat ->
+  exists m' blk' bln' bgl' base,
+    CLite.callf GenCFuncs.cprog fuel (S (S (S d))) GenCFuncs.F_lbuf_replace
+      [CLite.VPtr lb 0; sv; CLite.VInt (Z.of_nat pos); CLite.VInt (Z.of_nat nd)] m = CLite.Ok (CLite.VUndef, m')
+    /\ TrSpliceAll.lbuf_at m' lb blk' bln' bgl' (TrSpliceAll.splice lbs (List.seq base ni) pos nd)
+         (TrSpliceAll.splice lines (IoDefs.split_lines t) pos nd)
+         (TrSpliceAll.splice_globs globs pos nd ni) (TrSpliceAll.splice_marks nul pos nd ni mk) (Z.to_nat cap')
+    /\ need < cap' /\ Z.of_nat cap <= cap'
+    /\ (length m <= base)%nat /\ (length m <= length m')%nat
+    /\ (forall c, (c < length m)%nat -> ~ In c (lb :: bln :: bgl :: lbs) -> nth_error m' c = nth_error m c)
+    /\ (forall b, In b (firstn nd (skipn pos lbs)) -> nth_error m' b = Some [])
+    /\ TrSplice.arr_kept m m' bln bln' /\ TrSplice.arr_kept m m' bgl bgl'
+    /\ (forall j, (68 <= j)%nat -> nth_error blk' j = nth_error blk j).
+Proof. exact TrSpliceAll.tr_lbuf_replace. Qed.
+Print Assumptions C15_tr_lbuf_replace.
+
+Theorem C15_tr_splice_is_ex : forall (xl : ExDefs.lbuf) s pos nd,
+  (pos + nd <= length (ExDefs.lns xl))%nat -> length (ExDefs.marks xl) = 32%nat ->
+  let xl' := ExDefs.lbuf_replace s pos nd xl in
+  let ni := IoDefs.linecount (TrSpliceModels.txt s) in
+  map TrSpliceModels.addnl (map ExDefs.ltxt (ExDefs.lns xl'))
+    = TrSpliceAll.splice (map TrSpliceModels.addnl (map ExDefs.ltxt (ExDefs.lns xl))) (IoDefs.split_lines (TrSpliceModels.txt s)) pos nd
+  /\ map TrSpliceModels.zgl (ExDefs.lns xl') = TrSpliceAll.splice_globs (map TrSpliceModels.zgl (ExDefs.lns xl)) pos nd ni
+  /\ map fst (ExDefs.marks xl') = TrSpliceAll.splice_marks (TrSpliceModels.is_null s) pos nd ni (map fst (ExDefs.marks xl)).
+Proof. exact TrSpliceModels.splice_is_ex. Qed.
+Print Assumptions C15_tr_splice_is_ex.
+
+(* not vacuous: the two-line buffer of TrSpliceModels.ex_mem with ln_glob = 0, 2; replacing line 1 by two lines makes the arrays
+   grow: the new ln_glob array holds 0, 2 (inherited by the replacing line), 0 (the added line) *)
+Example C15_tr_lbuf_replace_glob_runs :
+  let G := TrSpliceModels.ex_G in
+  TrSpliceAll.lbuf_at TrSpliceModels.ex_mem G TrSpliceModels.ex_blk (G + 1) (G + 2) [G + 3; G + 4]%nat TrSpliceModels.ex_lines [0; 2] (repeat (-1) 32) 3 /\
+  match CLite.callf GenCFuncs.cprog 38 3 GenCFuncs.F_lbuf_replace [CLite.VPtr G 0; CLite.VPtr (G + 5) 0; CLite.VInt 1; CLite.VInt 1] TrSpliceModels.ex_mem with
+  | CLite.Ok (_, m') => Some (nth (G + 7) m' [], nth (G + 2) m' [CLite.VUndef])
+  | CLite.Err _ => None
+  end = Some ([CLite.VInt 0; CLite.VInt 2; CLite.VInt 0; CLite.VUndef; CLite.VUndef; CLite.VUndef], []) /\
+  TrSpliceAll.splice_globs [0; 2] 1 1 2 = [0; 2; 0].
+Proof. cbv zeta. split; [exact TrSpliceModels.ex_at|]. vm_compute. repeat split. Qed.
+End C15_translated_splice.
